@@ -3,7 +3,7 @@
 From Coq Require Import ZArith QArith List Bool.
 Require Import DS.Model.Value DS.Gen.GenPrune DS.Model.Prune DS.Proofs.PruneProofs.
 Require Import DS.Model.BoundPrim DS.Gen.GenBound DS.Model.Bound DS.Proofs.BoundProofs.
-Require Import DS.Model.ManifestPrim DS.Gen.GenManifest DS.Model.Manifest DS.Proofs.ManifestProofs.
+Require Import DS.Model.ManifestPrim DS.Gen.GenManifest13 DS.Model.Manifest13 DS.Proofs.Manifest13Proofs.
 Import ListNotations.
 Open Scope Z_scope.
 
